@@ -242,7 +242,17 @@ def run(ctx):
     sa = f.hir_fn("segment_atom", module="impl_lexical::parser")
     ctx.fn(sa)
     cl = [n_ for n_ in hir.walk(sa["body"]) if n_.get("k") == "Closure" and len(n_.get("params", [])) == 2]
-    okc = False
+    lets_ = hir.let_env(sa["body"])          # binders are identified by what they are bound to, not by their names
+
+    def init_of(e_):
+        e_ = strip(e_)
+        while e_["k"] == "AddrOf" or (e_["k"] == "Unary" and e_.get("op") in ("*", "Deref")):
+            e_ = strip(e_["e"])
+        if e_["k"] == "Path" and e_["path"].get("res") == "local":
+            return lets_.get(e_["path"].get("hid"))
+        return None
+    env_name = [q["name"] for q in sa["params"] if q.get("k") == "Binding" and q["name"] != "self"][:1]
+    okc = okcop = False
     if len(cl) == 1:
         pi, pc_ = [q.get("name") for q in cl[0]["params"]]
         b_ = strip(cl[0]["body"])
@@ -250,25 +260,40 @@ def run(ctx):
             l_, r_ = strip(b_["l"]), strip(b_["r"])
             lid = l_["k"] == "Call" and field_path(strip(l_["f"])) is not None and field_path(strip(l_["f"]))[-1] == "is_identifier" and field_path(l_["args"][0]) == (pc_,)
             rnone = r_["k"] == "MethodCall" and r_["method"] == "is_none" and strip(r_["recv"])["k"] == "MethodCall" \
-                and strip(r_["recv"])["method"] == "match_prefix_char_slice" and field_path(strip(r_["recv"])["recv"]) == ("copulas",)
+                and strip(r_["recv"])["method"] == "match_prefix_char_slice"
             if rnone:
+                dic = strip(r_["recv"])["recv"]
+                src = init_of(dic)
+                okcop = maps_table_field(src if src is not None else dic) == "statement.copulas"
                 a_ = strip(strip(r_["recv"])["args"][0])
                 while a_["k"] == "AddrOf":
                     a_ = strip(a_["e"])
-                rnone = a_["k"] == "Index" and field_path(a_.get("e") or a_.get("base")) == ("env",) and pi in json.dumps(a_["idx"])
+                rnone = a_["k"] == "Index" and field_path(a_.get("e") or a_.get("base")) == tuple(env_name) and pi in json.dumps(a_["idx"])
             okc = lid and rnone
-    cop = [st_ for st_ in strip(sa["body"])["stmts"] if st_["k"] == "Let" and st_["pat"].get("name") == "copulas"]
-    okcop = len(cop) == 1 and maps_table_field(cop[0]["init"]) == "statement.copulas"
     ctx.ob("A-ATOM-LEX", "segment_atom: name continues iff identifier char and no copula starts here", okc and okcop, "closure shape ok: %s; copulas = statement.copulas: %s" % (okc, okcop))
-    ifs = [strip(st_["expr"]) for st_ in strip(sa["body"])["stmts"] if st_["k"] in ("Semi", "Expr") and strip(st_["expr"])["k"] == "If"]
     oke = False
-    if len(ifs) == 1:
-        c_ = strip(ifs[0]["cond"])
+    for n_ in hir.walk(sa["body"]):
+        br_ = hir.as_branch(n_) if n_.get("k") == "If" else None
+        if not br_ or br_[1] is None or not hir.leaves(br_[1]):
+            continue
+        c_ = strip(br_[0])
         if c_["k"] == "Binary" and c_["op"] in ("&&", "And"):
             l_, r_ = strip(c_["l"]), strip(c_["r"])
-            oke = l_["k"] == "Binary" and l_["op"] in (">=", "Ge") and field_path(l_["l"]) == ("content_start",) and field_path(l_["r"]) == ("right_border",) \
-                and r_["k"] == "MethodCall" and r_["method"] == "is_empty" and field_path(r_["recv"]) == ("prefix",) \
-                and any(n_.get("k") == "Ret" for n_ in hir.walk(ifs[0]["then"]))
+            if l_["k"] == "MethodCall" and l_["method"] == "is_empty":
+                l_, r_ = r_, l_
+            if not (l_["k"] == "Binary" and r_["k"] == "MethodCall" and r_["method"] == "is_empty"):
+                continue
+            lo, hi = (l_["l"], l_["r"]) if l_["op"] in (">=", "Ge") else (l_["r"], l_["l"]) if l_["op"] in ("<=", "Le") else (None, None)
+            if lo is None:
+                continue
+            lo_i, hi_i = init_of(lo), init_of(hi)
+            pfx = field_path(r_["recv"])
+            # lo = <prefix>.chars().count(), hi = collect_some_prefix(..), and the emptiness test is on the same <prefix>
+            ok_lo = lo_i is not None and strip(lo_i)["k"] == "MethodCall" and strip(lo_i)["method"] == "count" \
+                and strip(strip(lo_i)["recv"])["k"] == "MethodCall" and strip(strip(lo_i)["recv"])["method"] == "chars" \
+                and field_path(strip(strip(lo_i)["recv"])["recv"]) == pfx and pfx is not None
+            ok_hi = hi_i is not None and strip(hi_i)["k"] == "MethodCall" and strip(hi_i)["method"] == "collect_some_prefix"
+            oke = oke or (ok_lo and ok_hi)
     ctx.ob("A-ATOM-LEX", "segment_atom: rejected iff name and prefix are both empty", oke, "expected `if content_start >= right_border && prefix.is_empty() { return err }`")
     import tables as _t3
     _t3.rule_T_SPACE(ctx, _t3.Tables(ctx), models=("lex",))
